@@ -91,6 +91,7 @@ type simHistOpts struct {
 
 // simHistStats describes what a generated history actually exercised.
 type simHistStats struct {
+	HugeRounds                                                                                              int
 	Evictions                                                                                               int
 	CreateRaces, CreatesOverExisting                                                                        int
 	ResubmittedFailed                                                                                       int
@@ -508,6 +509,11 @@ func (h *simHist) run(t *rapid.T) error {
 		} else {
 			entries = h.genEntries(t, n)
 		}
+		// rarely a catch-up round of more than five tiles (more than sixteen objects in one staged bundle)
+		if rapid.IntRange(0, 24).Draw(t, "hugeRound") == 17 {
+			entries = append(entries, h.genEntries(t, rapid.IntRange(1400, 2600).Draw(t, "hugeN"))...)
+			h.st.HugeRounds++
+		}
 		// rarely a round of several MiB: 66-90 entries with 64 KiB certificates (size-dependent limits on reload and recovery)
 		if rapid.IntRange(0, 59).Draw(t, "fatRound") == 41 { // (rapid favours small values: a middle value keeps this rare)
 			for k := rapid.IntRange(66, 90).Draw(t, "fatN"); k > 0; k-- {
@@ -694,6 +700,9 @@ func (h *simHist) run(t *rapid.T) error {
 			}
 			h.inSeq, h.pending = h.pending, map[string]bool{}
 			h.snapMust = append(h.snapMust, copyMust(h.must))
+		}
+		if simVirtualTime && rapid.IntRange(0, 2).Draw(t, "tileBarrier") == 1 {
+			s.w.barrierNext = true // this round's parallel tile uploads overlap in time
 		}
 		res := s.round(h.in, faults)
 		s.w.yield = nil
